@@ -226,6 +226,7 @@ fn add_stats(rep: &mut Report, out: &HOutcome) {
     rep.add("seeks_in_buffer", s.seeks_in_buffer as u64);
     rep.add("seeks_real", s.seeks_real as u64);
     rep.max("largest_set_read", s.largest_set as u64);
+    rep.add("clone_from_into_used_sets", s.clone_from_calls as u64);
     rep.add("exact_reads_asking_for_2pow32_or_more", s.exact_huge_n as u64);
     rep.add("positions_checked_after_an_error", s.positions_checked_after_error as u64);
     if s.largest_set > 65535 {
